@@ -550,3 +550,48 @@ def replay_colour_collection(index, ob, seed, saved=None):
         if not ct or "\\red255\\green0\\blue0" not in ct.group(0):
             return _r(True, input=case, observed=f"colour table {ct.group(0) if ct else None!r} has no entry for red")
     return _r(False, tried=len(cases))
+
+
+def replay_group_by_pipeline(index, ob, seed, saved=None):
+    """group_by through the whole encode pipeline on the real code: a group cell is blank exactly when its (hierarchical) key repeats
+    the previous row's and the row is not the first row of its page; non-contiguous keys are refused with ValueError."""
+    import polars as pl
+    from contracts.readback import parse
+    rtf = index.real_module("rtflite")
+    cases = []
+    for nrow in (3, 4, 5, 6, 20):
+        cases.append({"keys": ["A", "A", "B", "B", "A", "A", "C", "C"], "nrow": nrow, "expect": "ValueError"})
+        cases.append({"keys": ["A", "A", "A", "B", "B", "C", "C", "C"], "nrow": nrow, "expect": "blanks"})
+    for case in cases:
+        if saved is not None and case != saved.get("input", saved):
+            continue
+        keys = case["keys"]
+        df = pl.DataFrame({"g": keys, "x": [f"r{i}" for i in range(len(keys))]})
+        try:
+            doc = rtf.RTFDocument(df=df, rtf_page=rtf.RTFPage(nrow=case["nrow"]), rtf_body=rtf.RTFBody(group_by=["g"], as_colheader=False),
+                                  rtf_column_header=[rtf.RTFColumnHeader(text=["G", "X"])])
+            s = doc.rtf_encode()
+        except ValueError as e:
+            if case["expect"] == "ValueError":
+                continue
+            return _r(True, input=case, observed=f"contiguous keys refused: {e}")
+        except Exception as e:
+            return _r(True, input=case, observed=f"{type(e).__name__}: {e}")
+        if case["expect"] == "ValueError":
+            return _r(True, input=case, observed="non-contiguous group_by keys were rendered instead of being refused with ValueError")
+        pages = parse(s).pages
+        k = 0
+        for pi, p in enumerate(pages):
+            first_on_page = True
+            for r in p.rows:
+                t = [c.text for c in r.cells]
+                if len(t) != 2 or t == ["G", "X"]:
+                    continue
+                want = keys[k] if (first_on_page or k == 0 or keys[k] != keys[k - 1]) else ""
+                if t[0] != want or t[1] != f"r{k}":
+                    return _r(True, input=case, observed=f"page {pi + 1}, data row {k}: rendered {t}, expected [{want!r}, 'r{k}']")
+                k += 1
+                first_on_page = False
+        if k != len(keys):
+            return _r(True, input=case, observed=f"{k} data rows read back, {len(keys)} expected")
+    return _r(False, tried=len(cases))
